@@ -25,22 +25,18 @@ CLAIMS = {
             "HMAC-SHA512 is uninterpreted below the compression function, point multiplication is uninterpreted; both trusted. Depth 2 and mixed paths are attempts; deeper paths repeat the same loop body on a state the symbolic HMAC outputs already make arbitrary."),
     "C04": ("Solver-decided: PrivateKey::new accepts a 32-byte string iff 0 < value < n (all 2^256 values, real k256 comparison code), other lengths 0..64 are rejected or read as the same integer; the address is bytes 12..32 of one Keccak over exactly the 64 coordinate bytes, for the encoding of this secret's point and (encoding abstracted) for every 65-byte encoding.",
             "secret*G and Keccak-256 are uninterpreted (trusted); EIP-55 casing is ethaddr's Display and not decided."),
-    "C06": ('Solver-decided structure, for all 2^256 values of every integer field, recipient present/absent, either parity: exact field order, EIP-155 tail and (v, r, s) tail of legacy transactions (all four signed/chain-id combinations); type byte || ONE list of exactly [chainId, nonce, fees, gas, to, value, data, accessList (, yParity, r, s)] for EIP-2930 and EIP-1559, signed and unsigned; calldata of symbolic length 0..40 and access lists of 0..2 entries reach their leaves unchanged; the signed digest of every kind is one Keccak over exactly the unsigned payload; Transaction::encode equals the per-kind encoder (thorough); signature accessors; the empty access list.',
-            'Assume-guarantee: rlp::uint / rlp::bytes / rlp::list / AccessList::rlp_encode are recorders in the structure queries and their contracts are decided in C07. Populated access lists through the real rlp::iter exceed the caps (attempts c06a_alist_*). JSON -> struct: the kind dispatch in Deserialize for Transaction cannot be compiled by Kani 0.68 (internal compiler error on the niche-encoded Result<Eip1559Transaction, _>, attempt c06_kind_dispatch), field binding is serde-derive; sender recovery is cryptography.'),
+    "C06": ('Solver-decided structure, for all 2^256 values of every integer field, recipient present/absent, either parity: exact field order, EIP-155 tail and (v, r, s) tail of legacy transactions (all four signed/chain-id combinations); type byte || ONE list of exactly [chainId, nonce, fees, gas, to, value, data, accessList (, yParity, r, s)] for EIP-2930 and EIP-1559, signed and unsigned; calldata of symbolic length 0..40 and access lists of 0..2 entries reach their leaves unchanged; populated access lists are [[address, [keys]], ...] in declaration order for shapes up to 2 entries x 2 keys with symbolic addresses and keys; the signed digest of every kind is one Keccak over exactly the unsigned payload; Transaction::encode equals the per-kind encoder (thorough); signature accessors.',
+            'Assume-guarantee: rlp::uint / rlp::bytes / rlp::list / rlp::iter / AccessList::rlp_encode are recorders in the structure queries and their contracts are decided in C07; the specification identifies leaves by the placeholder found at each list position, so it does not depend on evaluation order. Counterexamples are confirmed natively against an independent reference RLP encoder. JSON -> struct: the kind dispatch in Deserialize for Transaction cannot be compiled by Kani 0.68 (internal compiler error on the niche-encoded Result<Eip1559Transaction, _>, attempt c06_kind_dispatch), field binding is serde-derive; sender recovery is cryptography.'),
     "C07": ("Solver-decided: length header canonical and minimal for all 2^64 lengths and both kinds; byte strings of every length 0..60 (one query) and 0, 1, 2, 55..57, 128 (quick), 3, 20, 32, 33, 54, 64, 100, 255..257 (thorough) with all contents; integers for all 2^256 values; lists/iterators on both sides of the 55/56 boundary and with a two-byte length.",
             "Payload content is symbolic up to 257 bytes; longer payloads are covered by the header query for every length plus the absence of any other length-dependent branch in rlp::bytes."),
-    "C08": ("Solver-decided in parts: atomic encodings (bytesN alignment and exact length, dynamic bytes and strings hashed, intN/uintN words), the final 0x1901 preimage with accessors and error propagation. encodeType over symbolic reference graphs and the member type grammar are thorough-tier attempts (see level_note).",
-            "HashMap look-up replaced by a table look-up with the same contract; Keccak and the hex-string leaf uninterpreted. encodeType with symbolic member kinds and the recursive member-type parser did not finish (recursion unrolled at every call site); struct_hash's walk over a JSON object and whole-document digests are out of reach."),
-    "C09": ("Solver-decided in parts: uintN/intN ranges for all 2^256 values x all 32 widths; bytesN exact length (N-1, N, N+1); fixed "
-            "array size; undefined struct reference; wrong JSON kind for bool; negative JSON numbers (with C13).",
-            "The number parser is abstracted in the range queries and decided separately in C13. Missing/undeclared members are "
-            "inside struct_hash over a JSON object: out of reach."),
+    "C08": ('Solver-decided in parts: atomic encodings (bytesN alignment and exact length, dynamic bytes and strings hashed, intN/uintN words), the final 0x1901 preimage with accessors and error propagation.',
+            "HashMap look-up replaced by a table look-up with the same contract; Keccak and the hex-string leaf uninterpreted. NOT decided (attempts kept in the registry, none finishes under the caps): encodeType (symbolic graphs, the dependency closure alone with the rendering cut away, and a family of concrete graphs: the BTreeMap of sub-types), hashStruct's walk over the JSON object (serde_json::Map and Value drop glue), the member type grammar (recursive parser, no per-function recursion bound in CBMC 6), arrays, whole documents. A regression of the repaired encodeType defect (D2) is therefore not caught."),
+    "C09": ("Solver-decided for atoms: uintN/intN ranges for all 2^256 values x all 32 widths; bytesN exact length (N-1, N, N+1 for N in {1, 4, 31, 32}); a document without a domain type; negative JSON integers for unsigned fields (with C13's c13_prim_i64).",
+            'The number parser is abstracted in the range queries and decided separately in C13. Fixed-array size, wrong JSON kind for bool/address, undefined struct references and missing/undeclared members (struct_hash over a JSON object) are attempts that do not finish under the caps and are NOT part of the claim.'),
     "C10": ("Solver-decided: exactly one Keccak invocation over 0x19 'Ethereum Signed Message:\\n' || decimal(len) || message, digest returned unchanged, for every length 0..24 in one query and lengths 0, 9, 10 separately, all contents (non-UTF-8 included); the decimal rendering is the real std formatting code.",
             "Keccak uninterpreted (trusted). Lengths above 24 (hence 3+ digit lengths) are outside: the message is copied at an offset that depends on the formatted length (memcpy at a symbolic offset; 32 bytes already exceed 16 GB)."),
-    "C11": ("Solver-decided in parts: v = 35 + 2c + parity exactly for every chain id for which that fits 256 bits, 27/28 without; the "
-            "unsigned legacy payload ends in (c, 0, 0), typed payloads start with c (structure queries of C06 with c symbolic).",
-            "The CLI guard in cmd::sign::run (clap, file I/O, signing) is process-level and not decided. Known finding D7 (overflow "
-            "for c > (2^256-37)/2) is reported, not suppressed elsewhere."),
+    "C11": ('Solver-decided in parts: v = 35 + 2c + parity exactly for every chain id for which that fits 256 bits, 27/28 without; the unsigned legacy payload ends in (c, 0, 0) and is what is hashed; typed payloads start with c and the signed digest is one Keccak over exactly that payload (structure queries of C06 with c symbolic).',
+            'The CLI guard in cmd::sign::run is NOT decided: a harness with everything around the guard as recorders exists (c11_cli_guard) but Kani 0.68 cannot compile that function (internal compiler error on the niche-encoded Result<Transaction, _>). Known finding D7 (overflow for c > (2^256-37)/2) is reported, not suppressed elsewhere.'),
     "C12": ("Solver-decided at the library boundary with getentropy(3) as a symbolic environment: unsupported lengths fail without "
             "an entropy request, a negative status is an error, otherwise exactly one request of 4L/3 bytes whose bytes are the "
             "entropy verbatim, checksum over exactly them, reported length L.",
